@@ -134,8 +134,7 @@ def machinery_key():
     Mo = os.path.join(LEAN, "PestTyped", "Model")
     return tree_hash([os.path.join(H, "corpus.py"), os.path.join(H, "rawgen.py"), os.path.join(H, "common"),
                       os.path.join(H, "tools"), os.path.join(H, "regressions"), os.path.join(VERIF, "checks", "suites.py")]
-                     + [os.path.join(Mo, f + ".lean") for f in ("Basic", "Tracker", "Node", "Run", "Tokens", "Pest", "Gen", "Spec")]
-                     + [os.path.join(LEAN, "Driver")])
+                     + [Mo, os.path.join(LEAN, "Driver")])
 
 
 def repo_head():
